@@ -374,12 +374,65 @@ def case_graph_drift(mon: Monitor, rng: random.Random) -> None:
     mon.obs["edges_required_total"] += nedge
 
 
-CASES = {"query": case_query, "graph": case_graph, "graph-global": case_graph_global, "graph-drift": case_graph_drift}
+def case_query_continental(mon: Monitor, rng: random.Random) -> None:
+    """Continent-sized tiled rasters in a conic / azimuthal CRS queried with a large non-rectangular outline given in lon/lat or web mercator: the outline's
+    bounding box in its own CRS says little about where it lands (edges bulge across tile boundaries)."""
+    import shapely.affinity
+    import shapely.geometry as sg
+    from odc.geo import geom
+    from odc.geo.geobox import GeoBox, GeoboxTiles
+
+    gcrs, A, shape, (lon0, lat0), (rlon, rlat) = rng.choice([
+        ("EPSG:3577", Affine(10_000, 0, -2_200_000, 0, -10_000, -1_000_000), (350, 420), (134.0, -25.0), (14.0, 9.0)),
+        ("EPSG:3035", Affine(10_000, 0, 2_500_000, 0, -10_000, 5_500_000), (400, 450), (12.0, 52.0), (18.0, 10.0)),
+        ("EPSG:3577", Affine(5_000, 0, -1_800_000, 0, -5_000, -1_200_000), (500, 700), (132.0, -24.0), (10.0, 7.0)),
+    ])
+    gb = GeoBox(shape, A, gcrs)
+    t = (rng.choice([25, 40, 50]), rng.choice([30, 40, 60]))
+    gbt = GeoboxTiles(gb, t)
+    qcrs = rng.choice(["EPSG:4326", "EPSG:4326", "EPSG:3857"])
+    kindq = rng.choice(["ellipse", "ellipse", "triangle", "diamond"])
+    f = rng.uniform(0.5, 1.0)
+    if kindq == "ellipse":
+        q_ll = shapely.affinity.scale(sg.Point(lon0, lat0).buffer(1.0, 64), rlon * f, rlat * f)
+    elif kindq == "triangle":
+        q_ll = sg.Polygon([(lon0 - rlon * f, lat0 - rlat * f), (lon0 + rlon * f, lat0 - 0.2 * rlat), (lon0, lat0 + rlat * f)])
+    else:
+        q_ll = sg.Polygon([(lon0, lat0 - rlat * f), (lon0 + rlon * f, lat0), (lon0, lat0 + rlat * f), (lon0 - rlon * f, lat0)])
+    q_ll = q_ll.segmentize(0.25)
+    xs, ys = np.asarray(q_ll.exterior.coords).T
+    if qcrs != "EPSG:4326":
+        xs, ys = gen.transformer("EPSG:4326", qcrs).transform(xs, ys)
+    query = geom.polygon(list(zip(np.asarray(xs).tolist(), np.asarray(ys).tolist())), qcrs)
+    bx, by = gen.transformer(qcrs, gcrs).transform(xs, ys)
+    q_native = sg.Polygon(list(zip(bx, by)))
+    desc = {"gbox": gen.gbox_desc(gb), "tiles": t, "query_crs": qcrs, "query_kind": kindq, "query_bounds": list(query.geom.bounds)}
+    if not q_native.is_valid:
+        return mon.skip("tiles", "degenerate query")
+    res, e = call(lambda: list(gbt.tiles(query)))
+    if e is not None:
+        return mon.fail("GeoboxTiles.tiles", {**desc, "exc": e}, key="tiles-raises")
+    got = {tuple(i) for i in res}
+    NY, NX = gb.shape
+    must, may = set(), set()
+    for r in range(-(-NY // t[0])):
+        for c in range(-(-NX // t[1])):
+            tp = footprint(gb, c * t[1], r * t[0], min((c + 1) * t[1], NX), min((r + 1) * t[0], NY))
+            a = tp.intersection(q_native).area
+            if a > 1e-4 * tp.area:  # the densified outline (0.25 degree steps) follows the true image to well below a hundredth of a tile
+                must.add((r, c))
+            if a > 0 or tp.distance(q_native) <= 0.01 * math.sqrt(tp.area):
+                may.add((r, c))
+    mon.check(must <= got <= may, "GeoboxTiles.tiles", lambda: {**desc, "n_got": len(got), "missing": sorted(must - got)[:8], "extra": sorted(got - may)[:8]},
+              key="tiles-missing" if not must <= got else "tiles-extra", cls="geometry|other-crs|continental", sig=hsig("qc", gcrs, t, qcrs, kindq, f), sample={**desc, "n_got": len(got)})
+
+
+CASES = {"query": case_query, "graph": case_graph, "graph-global": case_graph_global, "graph-drift": case_graph_drift, "query-continental": case_query_continental}
 
 
 def run(mon: Monitor, tier: str, seed: int, shard: int, nshards: int) -> None:
     rng = random.Random(seed * 1000 + shard + 12)
-    counts = {"query": 900, "graph": 500, "graph-global": 60, "graph-drift": 12} if tier == "quick" else {"query": 15000, "graph": 8000, "graph-global": 1200, "graph-drift": 200}
+    counts = {"query": 900, "graph": 500, "graph-global": 60, "graph-drift": 12, "query-continental": 16} if tier == "quick" else {"query": 15000, "graph": 8000, "graph-global": 1200, "graph-drift": 200, "query-continental": 300}
     for kind, n in counts.items():
         for _ in range(n):
             rs = rng.getrandbits(48)
@@ -395,6 +448,7 @@ def run(mon: Monitor, tier: str, seed: int, shard: int, nshards: int) -> None:
         mon.floor(pt, n)
     mon.floor("GeoboxTiles.grid_intersect|same|far|disjoint", 10)
     mon.floor("GeoboxTiles.grid_intersect|same|near-integer-scale", 8)
+    mon.floor("GeoboxTiles.tiles|geometry|other-crs|continental", 10)
     for c_ in ("EPSG:32633", "EPSG:3577", "EPSG:3035"):
         mon.floor("GeoboxTiles.grid_intersect|cross|global-source|" + c_, 2)
     mon.floor("GeoboxTiles.grid_intersect|cross|far|disjoint", 5)
